@@ -737,10 +737,10 @@ def wl_proofs(ctx, rng, idx, n):
     big_budget = (
         {"hash_idx": 6, "hash_bits": 2, "root_bits": 2, "flag_bits": 24, "count_bits": 16}
         if quick
-        else {"hash_idx": 24, "hash_bits": 8, "root_bits": 16, "flag_bits": 96, "count_bits": 18}
+        else {"hash_idx": 16, "hash_bits": 8, "root_bits": 16, "flag_bits": 96, "count_bits": 18}
     )
     sizes = [s for i, s in enumerate(SAMPLED_TREE_SIZES) if i % n == idx]
-    sizes += [rng.randrange(11, 5001) for _ in range(1 if quick else 12)]
+    sizes += [rng.randrange(11, 5001) for _ in range(1 if quick else 6)]
     for s in sizes:
         patterns = [[], [0], [s - 1], [rng.randrange(s)], sorted(rng.sample(range(s), min(s, 5)))]
         patterns.append([i for i in range(s) if rng.random() < 0.1])
@@ -929,7 +929,7 @@ def wl_headers(ctx, rng, idx, n):
         raws = []
         prev = rng.getrandbits(256).to_bytes(32, "big")
         for _ in range(length):
-            bits4 = ch.bits4_from_compact(rng.choice(EASY_BITS[:4] if ctx.tier == "quick" else EASY_BITS))
+            bits4 = ch.bits4_from_compact(rng.choice(EASY_BITS if (ctx.tier == "thorough" and ci % 50 == 7) else EASY_BITS[:4]))
             raw = mine(rng, rng.getrandbits(32), prev, rng.getrandbits(256).to_bytes(32, "big"), rng.getrandbits(32), bits4)
             raws.append(raw)
             prev = ch.header_hash_be(raw)
